@@ -33,16 +33,28 @@ MANIFEST = {
             "number of steps (no endless exchange between two servers), the client caches "
             "exactly what was answered; a lookup and an NTP time request end to end between two nodes succeed exactly when the "
             "server and the client are RUNNING on ON nodes with the frames accepted, and otherwise change nothing. "
+            "ROUND 4: web browser / web server payload processing is modelled and proved (GET -> DNS lookup -> HTTP request -> database "
+            "verdict -> status code; response_codes, latest_response, history, the server's health write; a fetch end to end), a "
+            "payload may write the receiver's own health_state_actual and nothing else of the lifecycle layer (LifeEq invariants); "
+            "the attack loops of DoSBot / DataManipulationBot / RansomwareScript are modelled as stage machines and proved to act "
+            "(connect, query, draw a trial) only on a RUNNING instance of an ON node; every apply_timestep override below Software "
+            "calls super().apply_timestep on EVERY path (path analysis, obligation C13_gen_tick_overrides) so the countdown "
+            "theorems speak about every shipped class; the translated receive path equals Node.receivers on every reachable node "
+            "(no hypothesis); the transport terminates for every pair of nodes built from shipped classes (the bound on programs "
+            "per node follows from the regenerated class registry). "
             "CONNECTION BOOKKEEPING (add_connection / terminate_connection): health becomes OVERWHELMED exactly when a connection is "
             "requested at max_sessions; the table never exceeds max_sessions. "
             "Tie: guard tables, validators, countdown idioms, enum values, defaults, the shipped-class table (every receive() "
             "guarded), install guard / eviction / class-map writes / uninstall clean-ups, the docs masking table, the translated "
             "functions and the normalised bodies of the class methods the payload model follows (Gen/Software.lean, "
             "Gen/SoftwareRecv.lean, obligations C13_gen_*); differential rigs: R-svc on real Computer, Server, Router, Switch and "
-            "Firewall nodes over every shipped class; R-recv on two real hosts joined by a real link (real receive of the four "
+            "Firewall nodes over every shipped class; R-recv on two real hosts joined by a real link (real receive of the six "
             "modelled classes, real NIC/ARP/HostNode/SessionManager/SoftwareManager transport); R-conn on real instances.",
-    "note": "C13-specific: payload processing is modelled for DNS and NTP client/server only — web browser / web server, FTP client / "
-            "server, database, terminal, C2, the bots are followed only as far as routing and the running-guard; two-node exchanges are "
+    "note": "C13-specific: payload processing is modelled for DNS, NTP and web client/server and the three attack loops — FTP client / "
+            "server (STOR / RETR, files), database service / client, terminal (C16), the C2 beacon / server state machine are followed "
+            "only as far as routing and the running-guard; the web server's database access enters as a verdict (is a database client "
+            "installed, what connection it hands out, do its queries succeed: C17's subject), the bots' random trials as inputs (C19's); "
+            "URLs are taken as parsed (urlparse is trusted); two-node exchanges are "
             "modelled over an IDEAL transport (both nodes ON, peer's frame filter accepts; ARP, links, NIC state, ACLs are C08/C12/C18's "
             "subject) and the rig uses instant power transitions there; the exchange started by an NTP client inside "
             "Node.apply_timestep is modelled at its place in the per-service loop only while no power countdown is pending; "
